@@ -118,6 +118,17 @@ Fourth round (C15) and third round (C17, C19):
   and the same consumer does not build with `{}` or `{alloc}`, that is `C19.build consumer-<set>`. `m2` (`Display` honouring width, fill and
   precision only with alloc): formatting now also goes through `{:>44}`, `{:<5}`, `{:*^50}`, `{:.3}` into the stack buffer.
 
+Fifth round (C08, C20, C07; one agent per property):
+
+* `seeded/C20-r4c20-m3` (one parser for rule times, range check on the *value* when extensions are off, so `/+2` and `/-0` are accepted
+  in the plain grammar): missed - the printer never wrote a sign in front of a non-negative rule time. Added the printing styles
+  *explicitly signed rule time* and *negative zero*; a description or a version-2 footer written that way is classified as needing
+  the extensions (`needs_extensions_styled`), by the writer, the independent well-formedness model and the resolution oracle alike.
+* `seeded/C08-r4c08-m1/m2/m3` (length of the skipped 32-bit block computed with 4-octet leap records; `isut` read before `isstd`;
+  32-bit times widened unsigned), `seeded/C20-r4c20-m1/m2` (malformed file replaced by the description of the same name; unreadable
+  absolute path retried under the directories), `seeded/C07-r4c07-m1/m2/m3` (year guard dropped in the rule evaluation; unchecked slice
+  after `<`; plain subtraction in the leap-record check): caught by the machinery as it was.
+
 Two-site breakages (`seeded/C07-duo2-m1`, `C08-duo2-m2`, `C17-duo2-m3`): each consists of two edits in different functions that are
 harmless alone (a relaxed range check in `TimeZoneRef::new` + a hoisted index in `find`; explicit enum discriminants + a numeric version
 comparison; an up-front validation in `find_n` + a reordered range check in the shared search). All three combinations were caught by the
